@@ -5,3 +5,4 @@ import Sigverif.Model.Merge
 import Sigverif.Model.Embed
 import Sigverif.Model.Mask
 import Sigverif.Model.Protocol
+import Sigverif.Props.Defs
